@@ -13,7 +13,7 @@ import json
 import os
 import shutil
 
-from .. import tlc, sandbox, roundtrip
+from .. import tlc, sandbox, roundtrip, lifecycle
 from ..common import import_py7zr, rng, scratch, MachineryError
 from .C15 import validate
 
@@ -191,6 +191,12 @@ def run(tier, rep, ev):
         ev.sample({"stream_trace": streams[len(streams) // 2][:6]})
     validate("C01", sess, rep, ev, classify_fn=session_classify, origins=sorig)
     validate("C01", streams, rep, ev, spec="TraceStream", cfg="TraceStream.cfg", classify_fn=stream_classify, origins=strorig, batch=1500)
+    # ---- the creating object around its write calls (Lifecycle.tla, mode w): read-side calls in between, calls after close()
+    rl = tlc.run("Lifecycle", "Lifecycle.cfg", workers=4)
+    ev.add_tlc(rl, "Lifecycle(calls<=5)")
+    if not rl.ok:
+        rep.note_drift(f"Lifecycle model violates {rl.violated}")
+    lifecycle.run("C01", ("w",), tier, R, rep, ev, validate)
     ev.cov["valid_chains"] = len(valid_chains)
     ev.cov["exhaustive"] = False
     ev.cov["rule"] = ("every chain accepted by the constructor among [pre] main [AES] + AES alone (TLC-enumerated), " +
